@@ -1351,3 +1351,100 @@ T("C05", "'on' boundary filter written the other way round", "util.py",
   """        if desired_range.start >= node_interval.end - 1:""")
 T("C05", "zero-size filter as an explicit comparison", "util.py",
   """        if not node_interval.length() - 1:""", """        if node_interval.length() - 1 == 0:""")
+
+
+# ---------------------------------------------------------------------------
+# round 8: one fault (and where it makes sense a twin) per rule added after the eighth round
+F("C06", "byte_intervals_at rejects queries that start at the end of the extent", "section.py",
+  """        return _nodes_at_interval_tree(self._interval_index.get(), addrs)""",
+  """        if self.address is not None and self.size is not None:
+            if self.address + self.size <= addrs.start:
+                return ()
+        return _nodes_at_interval_tree(self._interval_index.get(), addrs)""", "R06.1")
+T("C06", "byte_intervals_on rejects queries that start at the end of the extent", "section.py",
+  """        return _nodes_on_interval_tree(self._interval_index.get(), addrs)""",
+  """        if self.address is not None and self.size is not None:
+            if self.address + self.size <= addrs.start:
+                return ()
+        return _nodes_on_interval_tree(self._interval_index.get(), addrs)""")
+F("C18", "ByteBlock.deep_eq tests the exact class", "block.py",
+  """        if not isinstance(other, ByteBlock):
+            return False
+        return (
+            self.offset == other.offset""",
+  """        if type(other) is not type(self):
+            return False
+        return (
+            self.offset == other.offset""", "R18.2")
+F("C15", "type name rewritten before it is tokenised", "serialization.py",
+  """        tokens = findall("[^<>,]+|<|>|,", type_name)""",
+  """        type_name = type_name.strip()
+        tokens = findall("[^<>,]+|<|>|,", type_name)""", "R15.1")
+F("C17", "error message built with a computed format string", "symbol.py",
+  """                    "Symbol: UUID %s is not a block" % referent_uuid""",
+  """                    ("Symbol " + proto_symbol.name + ": UUID %s is not a block") % referent_uuid""", "R17.7")
+T("C17", "error message built from two literal formats", "symbol.py",
+  """                    "Symbol: UUID %s is not a block" % referent_uuid""",
+  """                    ("Symbol %r" % proto_symbol.name) + (": UUID %s is not a block" % referent_uuid)""")
+F("C19", "loader rejects blocks behind the stored bytes", "byteinterval.py",
+  """            block.offset = proto_block.offset
+            return block""",
+  """            if proto_block.offset > len(result.contents):
+                raise ValueError("block starts behind the bytes of its interval")
+            block.offset = proto_block.offset
+            return block""", "R19.6")
+F("C12", "get() empties the queue before it rebuilds or replays", "lazyintervaltree.py",
+  """        if self._interval_index is None:
+            self._interval_index = IntervalTree(intervals())
+        elif len(self._value_collection) <= len(self._interval_events):""",
+  """        events, self._interval_events = self._interval_events, []
+        self._interval_events = events
+        if self._interval_index is None:
+            self._interval_events = []
+            self._interval_index = IntervalTree(intervals())
+            return self._interval_index
+        elif len(self._value_collection) <= len(self._interval_events):""", "R12.4")
+F("C16", "_ModuleList.__setitem__ rejects slices with step 1", "ir.py",
+  """    def __init__(
+        self,
+        *,
+        modules""",
+  """        def __setitem__(self, i, v):  # type: ignore
+            if isinstance(i, slice) and i.step is not None:
+                v = list(v)
+                if len(v) != len(range(*i.indices(len(self)))):
+                    raise ValueError("attempt to assign sequence to extended slice")
+            super().__setitem__(i, v)
+
+    def __init__(
+        self,
+        *,
+        modules""", "R16.4")
+T("C16", "_ModuleList.__setitem__ rejects extended slices of the wrong size up front", "ir.py",
+  """    def __init__(
+        self,
+        *,
+        modules""",
+  """        def __setitem__(self, i, v):  # type: ignore
+            if isinstance(i, slice) and i.step not in (None, 1):
+                v = list(v)
+                if len(v) != len(range(*i.indices(len(self)))):
+                    raise ValueError("attempt to assign sequence to extended slice")
+            super().__setitem__(i, v)
+
+    def __init__(
+        self,
+        *,
+        modules""")
+F("C16", "SetWrapper.__le__ bound to a method of the store", "util.py",
+  """                self.add(v)
+
+    def __str__(self) -> str:""",
+  """                self.add(v)
+
+    def issubset(self, other):  # type: ignore
+        return self._data.issubset(other)
+
+    __le__ = issubset  # type: ignore
+
+    def __str__(self) -> str:""", "R16.8")
